@@ -143,11 +143,12 @@ def _resolve_module_name(ref: str, module: str | None) -> str | None:
         return module
 
     # Easy path, use the qualname if it's provided.
-    module = ref.split(".", maxsplit=1)[0]
-    if module != ref:
-        return module
+    head = ref.split(".", maxsplit=1)[0]
+    if head != ref and head in sys.modules:
+        return head
     # Harder path, find the actual object in the stack frame, if possible.
-    obj = frames.extract(ref)
+    #   (The head of a dotted name may be a class, e.g., `Outer.Inner`.)
+    obj = frames.extract(head)
     module = getattr(obj, "__module__", None)
     if module:
         return module
